@@ -5,3 +5,10 @@ claim('C12', 'Coq proof (closed form of the retry loop by induction on remaining
       'schedules (retry timers racing other completions) on every run, and the attempt log of the real engine is checked against the reference.',
       'Partial in one respect: the wall-clock length of asyncio.sleep is not exhibited (the virtual loop checks that a timer of exactly `delay` is armed between attempts).',
       design='4 (C12)')
+claim('C18', 'Coq proof (refinement of the file store to a write-once map by induction over operation sequences) + differential run against the real store on a temp directory',
+      'Theorems C18_refines_write_once_map / C18_keys_do_not_alias / C18_map_laws (Properties/C18.v): for every sequence of save/load operations over arbitrary '
+      'node ids, both formats and several contexts, the modelled store returns exactly what a write-once map returns, a failed save leaves the key unsaved and '
+      'distinct keys never alias (the proof depends on the DataFormat extension table regenerated from /repo). The extracted model and a plain dict are compared '
+      'with the real FileSystemArtifactStore on random adversarial operation sequences in a real temporary directory on every run.',
+      'Modelled, not verified: pickle/json (a value is only classified by which formats can serialise it; the round trip load(dump(v)) == v is sampled by the harness) and the OS file system (exists/open/unlink as a finite map).',
+      design='4 (C18)')
